@@ -31,7 +31,7 @@ func init() {
 			Trusted:     commonTrusted,
 		},
 		Mutants: []Mutant{
-			{Name: "skipped leading white space never put back (original defect)", File: "parse.go", Old: "\tif !sawClause {\n\t\tfor _, text := range skipped {", New: "\tif false {\n\t\tfor _, text := range skipped {", Rule: "C03.drop"},
+			{Name: "skipped leading white space never put back (original defect)", File: "parse.go", Old: "\tif !sawClause {\n\t\tfor _, text := range skipped {", New: "\tif sawClause {\n\t\tfor _, text := range skipped {", Rule: "C03.drop"},
 			{Name: "whitespace-only yield content is not rendered (agent seed C03/2, reduced)", File: "eval.go", Old: "\tmycontent := st.content\n\tif content != nil {", New: "\tmycontent := st.content\n\tif content != nil && !IsEmptyTree(content) {", Rule: "C03.identity"},
 			{Name: "custom right delimiter without its trim form (original defect)", File: "lex.go", Old: "\t\tl.rightDelim = rightDelim\n\t\tl.trimRightDelim = rightTrimMarker + rightDelim\n", New: "\t\tl.rightDelim = rightDelim\n", Rule: "C03.coupled"},
 			{Name: "trim form built from the default delimiter", File: "lex.go", Old: "\t\tl.trimRightDelim = rightTrimMarker + rightDelim\n", New: "\t\tl.trimRightDelim = rightTrimMarker + defaultRightDelim\n", Rule: "C03."},
@@ -1006,6 +1006,16 @@ func c03leadingKept(c *an.Ctx, pt *an.Fn) {
 		return true
 	})
 	key := "(*Template).parseTemplate/leading-whitespace-kept"
+	an.InspectOwn(pt, func(n ast.Node) bool {
+		if cc, ok := n.(*ast.CaseClause); ok {
+			for _, e := range cc.List {
+				if id, ok := an.Unparen(e).(*ast.Ident); ok && (id.Name == "itemExtends" || id.Name == "itemImport") {
+					clauseTests = append(clauseTests, e)
+				}
+			}
+		}
+		return true
+	})
 	if len(wsTests) == 0 || len(clauseTests) == 0 {
 		c.Undecided("C03.drop", key, pt.Pos(), "the white-space test or the extends/import test of the header loop was not found")
 		return
@@ -1042,11 +1052,11 @@ func c03leadingKept(c *an.Ctx, pt *an.Fn) {
 		}
 		return true
 	})
-	objName := func(o types.Object) string { return o.Name() + "@" + itoa(int(o.Pos())) }
 	x := p.NewExplorer(pt, an.Hooks{
 		Stmt: func(x *an.Explorer, n ast.Node, st *an.State) {
 			if e, ok := n.(ast.Expr); ok {
-				if o := flushLoops[e]; o != nil && st.Get("ws") == "saved:"+objName(o) {
+				// (the list may have been handed back by a helper the header loop was moved into: lists are not told apart)
+				if o := flushLoops[e]; o != nil && st.Get("ws") == "saved" {
 					st.Set("ws", "")
 				}
 			}
@@ -1059,7 +1069,7 @@ func c03leadingKept(c *an.Ctx, pt *an.Fn) {
 			call, isCall := an.Unparen(rhs).(*ast.CallExpr)
 			if ok && isCall && an.CalleeName(info, call) == "builtin.append" && len(call.Args) == 2 {
 				if first, ok := an.Unparen(call.Args[0]).(*ast.Ident); ok && an.ObjOf(info, first) == an.ObjOf(info, id) {
-					st.Set("ws", "saved:"+objName(an.ObjOf(info, id)))
+					st.Set("ws", "saved")
 				}
 			}
 		},
@@ -1071,13 +1081,22 @@ func c03leadingKept(c *an.Ctx, pt *an.Fn) {
 					}
 				}
 			}
-			for _, t := range clauseTests {
-				if cond.Pos() <= t.Pos() && t.End() <= cond.End() {
-					if v, known := x.Truth(t, st); known && v {
-						st.Set("clause", "1")
+			ast.Inspect(cond, func(n ast.Node) bool {
+				b, ok := n.(*ast.BinaryExpr)
+				if !ok || (b.Op != token.EQL && b.Op != token.NEQ) {
+					return true
+				}
+				for _, side := range []ast.Expr{b.X, b.Y} {
+					if id, ok := an.Unparen(side).(*ast.Ident); ok && (id.Name == "itemExtends" || id.Name == "itemImport") {
+						if _, isConst := an.ObjOf(info, id).(*types.Const); isConst {
+							if v, known := x.Truth(b, st); known && v == (b.Op == token.EQL) {
+								st.Set("clause", "1")
+							}
+						}
 					}
 				}
-			}
+				return true
+			})
 		},
 		Call: func(x *an.Explorer, call *ast.CallExpr, st *an.State) {
 			switch an.CalleeName(info, call) {
